@@ -131,6 +131,31 @@ def run(C, R):
                                    '%s: a waiting acquirer is unlinked (cancelled) without re-running the wake-up '
                                    'walk; if it was the head, a request behind it that fits stays asleep [%s]' % (
                                        m['path'], pc), where(F, unlinked[-1][1]), {'trace': trace_summary(path)})
+            # R8: an acquirer starts waiting only when its request does not fit, or - fair mode - somebody is
+            # queued ahead of it and the request is not for zero permits
+            for path in paths:
+                if path.exit != 'return' or poll_variant(E, path) != 'Pending':
+                    continue
+                for root in owns:
+                    parks = [e for e in path.events if e['k'] == 'qop' and e['op'] == 'add_front' and e['node'][:1] == root]
+                    if not parks:
+                        continue
+                    req = ('init', root + ('data', 'required_permits'))
+                    too_few = cmp_fact(E, path.facts, 'Lt', ('init', (('P', 'self'), 'permits')), req) == 1
+                    fair = const_of(E, path.facts, ('init', (('P', 'self'), 'is_fair')))
+                    nonempty = any(isinstance(k, tuple) and k and k[0] == 'qempty' and v == ('eq', 0)
+                                   for k, v in path.facts.items())
+                    nonzero = const_of(E, path.facts, ('bin', 'Eq', req, ('const', 0))) == 0 or \
+                        (path.facts.get(req) or ('', None))[0] == 'ne'
+                    if too_few or (fair == 1 and nonempty and nonzero):
+                        R.ok('C06.R8', '%s|parks: %s|%s' % (m['path'], 'too few permits' if too_few else
+                                                              'fair, queued behind others', path_cond(E, path)))
+                    else:
+                        R.fail('C06.R8', [m['path'], 'parks-although-request-fits', path_cond(E, path)],
+                               '%s queues the acquirer and returns Pending on a path that has established neither '
+                               'permits < required nor (fair, others queued, non-zero request): nobody will wake it '
+                               '[%s]' % (m['path'], path_cond(E, path)), where(F, parks[0]),
+                               {'trace': trace_summary(path)})
             # R7: a notified acquirer acquires unless the path has established that its request does NOT fit
             for path in paths:
                 for root in owns:
